@@ -1167,8 +1167,11 @@ class NestedPipeFunc(PipeFunc):
 
     @functools.cached_property
     def func(self) -> Callable[..., tuple[Any, ...]]:  # type: ignore[override]
-        func = self.pipeline.func(self.pipeline.unique_leaf_node.output_name)
-        return _NestedFuncWrapper(func.call_full_output, self.output_name)
+        # Request a single name, such that for a leaf node with multiple outputs
+        # all of its outputs are available by name in the full output.
+        leaf_name = at_least_tuple(self.pipeline.unique_leaf_node.output_name)[0]
+        func = self.pipeline.func(leaf_name)
+        return _NestedFuncWrapper(func.call_full_output, self.output_name, self._output_name)
 
     @functools.cached_property
     def __name__(self) -> str:  # type: ignore[override]
@@ -1202,9 +1205,15 @@ class _NestedFuncWrapper:
     order specified by the output_name.
     """
 
-    def __init__(self, func: Callable[..., dict[str, Any]], output_name: OUTPUT_TYPE) -> None:
+    def __init__(
+        self,
+        func: Callable[..., dict[str, Any]],
+        output_name: OUTPUT_TYPE,
+        original_output_name: OUTPUT_TYPE | None = None,
+    ) -> None:
         self.func: Callable[..., dict[str, Any]] = func
-        self.output_name: OUTPUT_TYPE = output_name
+        # The nested pipeline uses the original (not renamed) output names
+        self.output_name: OUTPUT_TYPE = original_output_name or output_name
         self.__name__ = f"NestedPipeFunc_{'_'.join(at_least_tuple(output_name))}"
 
     def __call__(self, *args: Any, **kwds: Any) -> Any:
